@@ -51,6 +51,16 @@ def run(tier):
                         vals.append(vv)
                         body = G.render(rng, v, cfg, rich=False)
                         docs.append((b"[" + b" " * nsp + body + b" 1]") if wrap == "vec2" else (b"{:title" + b" " * (nsp + 1) + body + b"}"))
+        # Clojure flag: a namespaced map denotes its explicit expansion (only the namespace `_` is the opt-out marker)
+        if cfg in ("clj", "both"):
+            for pfx in ("user", "a.b", "_p"):
+                ents = [((":name", ("kw", pfx, "name"))), (":_internal/id", ("kw", "_internal", "id")), ("_impl/state", ("sym", "_impl", "state")),
+                        (":_/plain", ("kw", None, "plain")), ("_/bare", ("sym", None, "bare")), ("sym", ("sym", pfx, "sym")), (":o/k", ("kw", "o", "k")),
+                        (":__/u", ("kw", "__", "u")), ("\"s\"", ("str", b"s")), ("7", ("int", 7))]
+                for cnt in (1, 4, len(ents)):
+                    sub = rng.sample(ents, cnt)
+                    vals.append(("map", [(kv, ("int", i)) for i, (_, kv) in enumerate(sub)]))
+                    docs.append(("#:%s{%s}" % (pfx, " ".join("%s %d" % (kt, i) for i, (kt, _) in enumerate(sub)))).encode())
         # the list-based model computes positions by walking the remaining input (quadratic in the document size)
         cap = 25000 if tier == "quick" else 60000
         keep = [i for i, d in enumerate(docs) if len(d) <= cap]
@@ -83,6 +93,26 @@ def run(tier):
                             "a well-formed rendering was %s: ...%s  expected ...%s" % ("rejected" if a.startswith("err") else "read differently", got[max(0, k - 40):k + 60], e[max(0, k - 40):k + 60]),
                             {"kind": "read", "config": cfg, "input_hex": C.hexs(docs[i]), "expected": e[:2000], "observed": got[:2000]})
         rep.note_cases(len(docs), set(C.sha(d)[:16] for d in docs), sample={"doc": docs[1][:200].decode("latin-1"), "expected": G.expected_dump(vals[1], cfg)[:200]})
+
+        # ---- documents read with a handler registry: identity handlers leave the content unchanged, however many tags there are
+        rvals, rdocs = [], []
+        for n in (1, 50, 99, 100, 101, 300):
+            for tag in (b"id", b"my/id", b"inst"):
+                rvals.append(("vec", [("int", i) for i in range(n)]))
+                rdocs.append(b"[" + b" ".join(b"#" + tag + b" %d" % i for i in range(n)) + b"]")
+        rimpl, rmodel, rdiffs, rcr, _ = K.correspond(cfg, K.read_lines(rdocs, 8))
+        rep.count("registry-renderings/" + cfg, len(rdocs))
+        for i in rdiffs[:3]:
+            rep.broken_obligation("correspondence/registry-read", "model %r vs code %r" % ((rmodel[i] or "")[:160], (rimpl[i] or "")[:160]), False)
+        for i, a in enumerate(rimpl):
+            if a is None:
+                continue
+            e = "ok " + G.expected_dump(rvals[i], cfg)
+            got = K.strip_ranges(a.split(" calls=[")[0])
+            if got != e:
+                found = True
+                rep.finding("fidelity/registry", "a document of %d identity-handled tags was %s" % (len(rvals[i][1]), "rejected: " + a[:80] if a.startswith("err") else "read differently"),
+                            {"kind": "read", "config": cfg, "opt": 8, "input_hex": C.hexs(rdocs[i]), "expected": e[:600], "observed": got[:600]})
 
         # ---- grammar derivations
         grammars = [("edn_grammar.ebnf", cfg)]
